@@ -549,7 +549,13 @@ NoRawCallable(d) == NoRawCallable0(d)
 \* fields that consume nothing at the very end of the input: a placed placeholder, an empty byte string placed with at(),
 \* a counted sequence of empty elements
 U_C14_End(zz) ==
-    {DeclP([C0 |-> Class(DefaultOpts, <<U1("a"), DataF("d", SzField("a")), MvField(EmF("tail"), [kind |-> "aligned", arg |-> SzConst(4), ref |-> "innermost-pkt"])>>)],
+    {\* a marker that overlaps itself (aa in aaa), first in the packet: what precedes the start offset may end in a piece of it
+     DeclP([C0 |-> Class(DefaultOpts, <<DataF("d", SzMarker(<<97, 97>>, FALSE, TRUE)), U1("post")>>)], {97, 1}, 5, {0, 1}),
+     DeclP([C0 |-> Class(DefaultOpts, <<DataF("d", SzMarker(<<97, 97>>, TRUE, TRUE)), U1("post")>>)], {97, 1}, 5, {0}),
+     \* bit runs of one, two and three bytes (through every way the input can be handed over)
+     DeclP([C0 |-> Class(DefaultOpts, <<BitsF("h", 3), BitsF("l", 5), U1("m"), BitsF("p", 4), BitsF("q", 12), U1("z")>>)], {1, 165}, 6, {0, 1}),
+     DeclP([C0 |-> Class(DefaultOpts, <<U1("a"), BitsF("h", 4), BitsF("m", 12), BitsF("l", 8)>>)], {1, 165}, 5, {0}),
+     DeclP([C0 |-> Class(DefaultOpts, <<U1("a"), DataF("d", SzField("a")), MvField(EmF("tail"), [kind |-> "aligned", arg |-> SzConst(4), ref |-> "innermost-pkt"])>>)],
            {0, 1, 2}, 5, {0, 1}),
      DeclP([C0 |-> Class(DefaultOpts, <<U1("a"), MvField(DataF("d", SzConst(0)), [kind |-> "at", arg |-> SzConst(3), ref |-> "innermost-pkt"])>>)], {0, 1}, 4, {0, 2}),
      DeclP([C0 |-> Class(DefaultOpts, <<U1("n"), RepCountF("r", DataF("e", SzConst(0)), SzField("n"), NoCond, 0)>>)], {0, 1, 3}, 3, {0, 1}),
